@@ -12,23 +12,23 @@ package machine
 //@ ghost func le64(b0 byte, b1 byte, b2 byte, b3 byte, b4 byte, b5 byte, b6 byte, b7 byte) uint64 = uint64(b0) | uint64(b1)<<8 | uint64(b2)<<16 | uint64(b3)<<24 | uint64(b4)<<32 | uint64(b5)<<40 | uint64(b6)<<48 | uint64(b7)<<56
 //@ ghost func le32(b0 byte, b1 byte, b2 byte, b3 byte) uint32 = uint32(b0) | uint32(b1)<<8 | uint32(b2)<<16 | uint32(b3)<<24
 
-//@ func UInt64Put
+//@ func UInt64Put (p, n)
 //@   panics_iff [short buffer refused] len(p) < 8
 //@   on_panic [nothing written] unchanged()
 //@   ensures [little-endian bytes, rest untouched] forall i int :: 0 <= i && i < len(p) ==> p[i] == (i < 8 ? byte(n >> (8 * uint64(i))) : old(p[i]))
 //@   modifies p
 
-//@ func UInt32Put
+//@ func UInt32Put (p, n)
 //@   panics_iff [short buffer refused] len(p) < 4
 //@   on_panic [nothing written] unchanged()
 //@   ensures [little-endian bytes, rest untouched] forall i int :: 0 <= i && i < len(p) ==> p[i] == (i < 4 ? byte(n >> (8 * uint32(i))) : old(p[i]))
 //@   modifies p
 
-//@ func UInt64Get
+//@ func UInt64Get (p)
 //@   panics_iff [short buffer refused] len(p) < 8
 //@   ensures [little-endian value of first 8 bytes] result == le64(p[0], p[1], p[2], p[3], p[4], p[5], p[6], p[7])
 
-//@ func UInt32Get
+//@ func UInt32Get (p)
 //@   panics_iff [short buffer refused] len(p) < 4
 //@   ensures [little-endian value of first 4 bytes] result == le32(p[0], p[1], p[2], p[3])
 
@@ -37,20 +37,18 @@ package machine
 
 //@ props C16
 
-//@ func Assume
+//@ func Assume (c)
 //@   panics_iff [panics exactly when false] !c
 
-//@ func Assert
+//@ func Assert (c)
 //@   panics_iff [panics exactly when false] !c
 
-//@ func MapClear
+//@ func MapClear (m)
 //@   ensures [map is empty] forall k K :: !has(m, k)
 //@   modifies map(m)
-//@   loop 1 invariant [every remaining key is still to be produced] forall k K :: has(m, k) ==> todo[k]
-//@   loop 1 invariant [only this map is touched] modifies_only(map(m))
 
 //@ ghost func dec(x uint64) string
 //@ assume func fmt.Sprintf (format, a)
 //@   ensures format == "%d" && len(a) == 1 && typeis(a[0], uint64) ==> result == dec(a[0].(uint64))
-//@ func UInt64ToString
+//@ func UInt64ToString (x)
 //@   ensures [decimal rendering via fmt %d] result == dec(x)
